@@ -466,6 +466,80 @@ def check_multiconst_case(case, ctx):
                     'accepted': [xl.show(w_) + ' (calculate with the same inputs)']})
 
 
+# -- workbooks finished with circular=True ----------------------------------------------
+
+def make_circular_case(seed, i):
+    from . import c10
+    rng = random.Random('fvmon/C08/circ/%s/%s' % (seed, i))
+    desc = c10.gen_workbook(rng)
+    d = c10.to_dict(desc)
+    keys = sorted(k for k in d if "!" not in k or True)
+    cyc = sorted(desc['cells'])
+    I = rng.sample(cyc, rng.randint(1, 2)) if rng.random() < 0.7 else []
+    I += rng.sample(sorted(desc['consts']), rng.randint(0 if I else 1, 2))
+    O = [k for k in rng.sample(cyc + sorted(desc['acyclic']), min(len(cyc), 4))
+         if k not in I]
+    pool = (True, False, 1.0, 0.0, 5.0, 7.0, 2.0)
+    args = [[rng.choice(pool) for _ in I] for _ in range(4)]
+    return {'kind': 'circular', 'id': '%s/%s' % (seed, i), 'desc': desc, 'I': I, 'O': O,
+            'args': args}
+
+
+def check_circular_case(case, ctx):
+    import formulas
+    from . import c10
+    if not case['O']:
+        return
+    d = c10.to_dict(case['desc'])
+    I, O = case['I'], case['O']
+    try:
+        m = formulas.ExcelModel().from_dict(dict(d), assemble=False)
+        m.finish(complete=False, circular=True)
+        if any(n not in m.dsp.nodes for n in I + O):
+            ctx.count('skipped.node-absent')
+            return
+        func = m.compile(I, O)
+    except Exception as ex:
+        ctx.violation('circular:compile-raised:%s' % type(ex).__name__, {
+            'case': case, 'observed': '%s: %s' % (type(ex).__name__, str(ex)[:150]),
+            'accepted': ['a function']})
+        return
+    for args in case['args']:
+        ctx.case(('circ', case['id'], args))
+        w = {'case': dict(case, args=[args]), 'inputs': I, 'outputs': O,
+             'arguments': args, 'formulas': {k: v for k, v in d.items()
+                                             if isinstance(v, str)}}
+        try:
+            sol = m.calculate(inputs=dict(zip(I, args)), outputs=O)
+            want = [xl.canon(xl.scalar(sol[o])) if o in sol else ('missing',) for o in O]
+        except Exception:
+            ctx.count('interpreted-raised')
+            continue
+        try:
+            res = func(*args)
+            res = res if isinstance(res, (list, tuple)) else [res]
+            got = [xl.canon(xl.scalar(v)) for v in res]
+        except Exception as ex:
+            ctx.violation('circular:call-raised:%s' % type(ex).__name__, dict(
+                w, observed='%s: %s' % (type(ex).__name__, str(ex)[:150]),
+                accepted=['values of calculate(inputs, outputs)']))
+            continue
+        ctx.count('monitor.circular-compiled-vs-interpreted')
+        for o, g, x in zip(O, got, want):
+            if x != ('missing',) and not xl.same(g, x, rel=1e-12):
+                dv = getattr(func.dsp, 'default_values', {}).get(o) or {}
+                w['output_default_in_function'] = (
+                    'none' if not dv else 'circular placeholder (initial distance %r)' % (
+                        dv.get('initial_dist'),)
+                    if type(dv.get('initial_dist')).__name__ == 'inf' else 'frozen value')
+                ctx.violation('circular:differs:%s->%s:%s' % (
+                    wbrun._cls(g), wbrun._cls(x),
+                    'input-in-cycle' if set(I) & set(case['desc']['cells'])
+                    else 'input-outside'), dict(
+                    w, cell=o, observed=xl.show(g), accepted=[xl.show(x)]))
+                break
+
+
 def plan(tier, seed):
     nm = 96 if tier == 'quick' else 1400
     per = 8 if tier == 'quick' else 40
@@ -476,12 +550,17 @@ def plan(tier, seed):
     nmc = 200 if tier == 'quick' else 3000
     for lo in range(0, nmc, 100):
         specs.append({'kind': 'multiconst', 'lo': lo, 'hi': lo + 100})
+    ncirc = 300 if tier == 'quick' else 4000
+    for lo in range(0, ncirc, 100):
+        specs.append({'kind': 'circular', 'lo': lo, 'hi': lo + 100})
     return specs
 
 
 def check_case(case, ctx):
     if case['kind'] == 'multiconst':
         check_multiconst_case(case, ctx)
+    elif case['kind'] == 'circular':
+        check_circular_case(case, ctx)
     elif case['kind'] == 'model':
         check_model_case(case, ctx)
     else:
@@ -495,6 +574,13 @@ def run(spec, ctx):
             check_multiconst_case(case, ctx)
         ctx.sample({'cells': case['cells'], 'inputs': case['inputs'],
                     'outputs': case['outputs']})
+        return
+    if spec['kind'] == 'circular':
+        for i in range(spec['lo'], spec['hi']):
+            case = make_circular_case(spec['seed'], i)
+            ctx.open_case({'kind': 'circular', 'id': case['id']})
+            check_circular_case(case, ctx)
+        ctx.sample({'circular_inputs': case['I'], 'outputs': case['O']})
         return
     if spec['kind'] == 'models':
         for i in range(spec['lo'], spec['hi']):
@@ -521,7 +607,9 @@ def finalize(agg, tier):
     for k, floor in (('monitor.compiled-vs-interpreted', 800),
                      ('monitor.compiled-vs-reference', 500),
                      ('monitor.formula-vs-literals', 2000), ('compiled', 150),
-                     ('monitor.multiconst', 400)):
+                     ('monitor.multiconst', 400),
+                     ('monitor.circular-compiled-vs-interpreted', 600),
+                     ('monitor.model-calculated-between-calls', 300)):
         if c.get(k, 0) < floor:
             inc.append('monitor %s saw %d events (< %d)' % (k, c.get(k, 0), floor))
     if c.get('compiled.with-frozen-values', 0) * 10 < 3 * c.get('compiled', 1):
